@@ -148,6 +148,7 @@ package cache
 //@   requires cacheInv(c)
 //@   requires valueFn != nil
 //@   opaque pure valueFn
+//@   oncall valueFn: {C09,C12} expiry.after-user-fn: ncall("expiration") == 0
 //@   let P = old(view(c.items))
 //@   let o = P[k]
 //@   let lv = live(o, now)
@@ -162,6 +163,7 @@ package cache
 //@   requires cacheInv(c)
 //@   requires valueFn != nil
 //@   opaque pure valueFn
+//@   oncall valueFn: {C09,C12} expiry.after-user-fn: ncall("expiration") == 0
 //@   let P = old(view(c.items))
 //@   let o = P[k]
 //@   let lv = live(o, now)
@@ -512,6 +514,7 @@ package cache
 //@   requires cacheInvOf(c)
 //@   requires valueFn != nil
 //@   opaque pure valueFn
+//@   oncall valueFn: {C09,C12} expiry.after-user-fn: ncall("expiration") == 0
 //@   let P = old(view(c.items))
 //@   let o = P[k]
 //@   let lv = liveOf(o, now)
@@ -526,6 +529,7 @@ package cache
 //@   requires cacheInvOf(c)
 //@   requires valueFn != nil
 //@   opaque pure valueFn
+//@   oncall valueFn: {C09,C12} expiry.after-user-fn: ncall("expiration") == 0
 //@   let P = old(view(c.items))
 //@   let o = P[k]
 //@   let lv = liveOf(o, now)
